@@ -1,4 +1,5 @@
 import Folang.Lemmas.SimCore
+import Folang.Lemmas.SimMonoSrc
 /-
 C01 / C17 — forward simulation for the lowering of core Folang to Go-core.
 
@@ -345,6 +346,40 @@ theorem lower_correct (P : Prog) (hP : wfProg P) (entry : String) (n : Nat) (tr 
 end Folang.Sem
 
 namespace Folang.Sem
+
+/-! ### the result does not depend on the fuel -/
+
+/-- the reference semantics is a (partial) function of the program: two completed runs agree -/
+theorem runProg_deterministic (P : Prog) (entry : String) (n m : Nat) (r r' : Trace × SVal)
+    (h : runProg P entry n = some r) (h' : runProg P entry m = some r') : r = r' := by
+  unfold runProg at h h'
+  have h1 := (evalN_mono P (Nat.le_max_left n m)).app _ _ _ h
+  have h2 := (evalN_mono P (Nat.le_max_right n m)).app _ _ _ h'
+  rw [h1] at h2
+  exact Option.some.inj h2
+
+/-- so is the Go-core semantics -/
+theorem grunProg_deterministic (GP : GProg) (entry : String) (n m : Nat) (r r' : Trace × GVal)
+    (h : grunProg GP entry n = some r) (h' : grunProg GP entry m = some r') : r = r' := by
+  unfold grunProg at h h'
+  have h1 := (gevalN_mono GP (Nat.le_max_left n m)).expr _ _ _ h
+  have h2 := (gevalN_mono GP (Nat.le_max_right n m)).expr _ _ _ h'
+  rw [h1] at h2
+  exact Option.some.inj h2
+
+/-- **Forward simulation, in the form "the lowered program prints what the source prints".**
+If the reference semantics finishes with output `tr`, then EVERY completed run of the Go-core
+semantics on the lowered program — with whatever fuel — has exactly the output `tr` (and at least one
+run completes). -/
+theorem lower_correct_output (P : Prog) (hP : wfProg P) (entry : String) (n : Nat) (tr : Trace) (v : SVal)
+    (h : runProg P entry n = some (tr, v)) :
+    (∃ m gv, grunProg (lowerProg P) entry m = some (tr, gv)) ∧
+    ∀ m tr' gv', grunProg (lowerProg P) entry m = some (tr', gv') → tr' = tr := by
+  obtain ⟨m0, gv, hg, _⟩ := lower_correct P hP entry n tr v h
+  refine ⟨⟨m0, gv, hg⟩, ?_⟩
+  intro m tr' gv' hg'
+  have := grunProg_deterministic (lowerProg P) entry m m0 _ _ hg' hg
+  exact (Prod.mk.inj this).1
 
 /-! ### non-vacuity: a concrete program meeting the hypotheses
 
